@@ -29,9 +29,12 @@ if [ -f $out/demo/run.sh ]; then
 else
   echo "demo: no run.sh (check manually: $(ls $out/demo))"
 fi
+# runs against another tree must not leave their evidence behind
+rm -rf /tmp/kv-evidence-bak; cp -r /verif/evidence /tmp/kv-evidence-bak
 cd /verif
 for c in $checks; do
   res=$(KV_REPO=$wt ./run $c quick 2>&1)
   echo "check $c: exit=$? $(echo "$res" | grep -c '^VIOLATION') violations; keys: $(echo "$res" | grep -o 'key=[^ ]*' | sort | uniq -c | tr '\n' ' ' | cut -c1-300)"
   echo "$res" | grep '^VIOLATION' | head -1 | cut -c1-400
 done
+rm -rf /verif/evidence; mv /tmp/kv-evidence-bak /verif/evidence
